@@ -643,6 +643,17 @@ Proof.
     rewrite str_eqb_refl, !N.eqb_refl, (list_eqb_refl N.eqb); [reflexivity | apply N.eqb_refl].
 Qed.
 
+Lemma vals_of_length : forall args ns, length ns = length args -> length (vals_of args ns) = length args.
+Proof. intros. unfold vals_of. rewrite map_length, combine_length. lia. Qed.
+
+Lemma data_of_vals_of : forall args ns, length ns = length args -> map data_of (vals_of args ns) = ns.
+Proof.
+  induction args as [|a args IH]; intros [|n ns] H; try discriminate; [reflexivity|].
+  unfold vals_of in *. cbn [combine map fst snd]. f_equal.
+  - unfold val_of_ty. destruct (a_ty a =? ty_context); reflexivity.
+  - apply IH. now inversion H.
+Qed.
+
 Lemma map_data_of : forall vs, map data_of (map VData vs) = vs.
 Proof. induction vs; cbn; congruence. Qed.
 
@@ -665,13 +676,13 @@ Proof.
   intros serde1 fb s g Hgen Hacc [[m [dd t]] vs] x Hv.
   destruct (valid_call_inv _ _ _ _ _ Hv) as (Hin & Hname & Hen & Hlen).
   unfold model_run. rewrite Hv. rewrite <- Hname.
-  assert (length (map VData vs) = length (m_args x)) as Hlen' by now rewrite map_length.
-  destruct (name_correct _ _ _ _ Hgen Hacc x Hin Hen (VCtx dd t) (map VData vs) Hlen')
+  assert (length (vals_of (m_args x) vs) = length (m_args x)) as Hlen' by now apply vals_of_length.
+  destruct (name_correct _ _ _ _ Hgen Hacc x Hin Hen (VCtx dd t) (vals_of (m_args x) vs) Hlen')
     as (r & Hr & Hnm).
   rewrite Hr, Hnm.
-  rewrite (glue_correct _ _ _ _ Hgen Hacc x Hin Hen (impl_of s) (VCtx dd t) (map VData vs) Hlen').
+  rewrite (glue_correct _ _ _ _ Hgen Hacc x Hin Hen (impl_of s) (VCtx dd t) (vals_of (m_args x) vs) Hlen').
   unfold run_of_outcome, expected_run. cbn [inv_method inv_ctx inv_args ctx_of fst snd].
-  now rewrite map_data_of.
+  now rewrite data_of_vals_of.
 Qed.
 
 Lemma model_run_invalid : forall s g c, valid_call s c = None -> model_run s g c = None.
@@ -856,3 +867,86 @@ Lemma sample_runs :
         None;
         Some ([(lit "_Get__b_", (1003, 7003), [])], [lit "r#trait._Get__b_"], Some 0)].
 Proof. split; vm_compute; reflexivity. Qed.
+
+(* ------------------------------------------------------------------ collisions with the expansion's own identifiers *)
+
+(* the property's dichotomy, for every definition: the toolchain rejects it, or every enabled
+   method is connected to itself (for every argument vector, Context-typed arguments included) *)
+Theorem rejected_or_correct : forall serde1 fb s,
+  match gen serde1 fb s with
+  | Err _ => True
+  | Ok g =>
+      rustc_accepts (strip g) = false \/
+      forall m, In m (s_methods s) -> enabled m = true ->
+      forall (impl : implementor) c vs, length vs = length (m_args m) ->
+        client_call (strip g) impl (i_txt (m_name m)) c vs
+        = ODone (Inv (i_txt (m_name m)) c vs) (impl (i_txt (m_name m)) c vs)
+  end.
+Proof.
+  intros serde1 fb s. destruct (gen serde1 fb s) as [g|e] eqn:Hgen; [|exact I].
+  destruct (rustc_accepts (strip g)) eqn:Hacc; [right|now left].
+  intros m Hin Hen impl c vs Hlen. exact (glue_correct _ _ _ _ Hgen Hacc m Hin Hen impl c vs Hlen).
+Qed.
+
+(* an argument called `ctx`, whatever its type, on a method that is not cfg'd out: rejected *)
+Theorem ctx_argument_rejected : forall serde1 fb s m a,
+  In m (s_methods s) -> enabled m = true -> In a (m_args m) -> i_txt (a_name a) = lit "ctx" ->
+  match gen serde1 fb s with
+  | Err _ => True
+  | Ok g => rustc_accepts (strip g) = false
+  end.
+Proof.
+  intros serde1 fb s m a Hin Hen Ha Hn. apply rejected_not_miscompiled.
+  exact (CArgCtx s m a Hin Hen Ha Hn).
+Qed.
+
+(* Why that rejection matters. A relay that forwards a caller's context as payload:
+     trait Relay { async fn forward(ctx: tarpc::context::Context) -> u8; }
+   The items the macro emits for it are refused (duplicate parameter `ctx` of the client fn). If
+   the client fn named its context parameter `context` instead - the items `client_ctx_renamed`,
+   a two-line change to the macro - nothing would be refused any more, every use would type-check,
+   and the server arm would hand the implementor the ARGUMENT as the request's context. *)
+Definition relay_witness : service :=
+  Service (plain "Relay") [ODerive [2]]
+    [Method (plain "forward") [Arg (plain "ctx") ty_context] (Some 1) []].
+
+Definition client_ctx_renamed (g : generated) : generated :=
+  Generated (g_trait g) (g_trait_fns g) (g_trait_extra g) (g_stub g) (g_server g)
+    (g_serve_params g) (g_serve_scrut g) (g_arms g) (g_req g) (g_variants g) (g_req_derives g)
+    (g_names g) (g_resp g) (g_rvariants g) (g_resp_derives g) (g_client g) (g_client_new g)
+    (map (fun f => ClientFn (cf_cfgs f) (cf_name f)
+                     (match cf_params f with
+                      | Arg _ t :: r => Arg (plain "context") t :: r
+                      | [] => []
+                      end)
+                     (cf_ret f) (cf_let f) (cf_enum f) (cf_variant f) (cf_fields f)
+                     [plain "context"; plain "request"] (cf_resp_enum f) (cf_unwrap f) (cf_fallback f))
+         (g_client_fns g)).
+
+Lemma ctx_context_argument_guard :
+  exists g, gen true FallbackErr relay_witness = Ok g
+    /\ rustc_accepts (strip g) = false
+    /\ rustc_accepts (client_ctx_renamed (strip g)) = true
+    /\ client_call (client_ctx_renamed (strip g)) (impl_of relay_witness) (lit "forward")
+         (VCtx 1000 7000) (vals_of [Arg (plain "ctx") ty_context] [1])
+       = ODone (Inv (lit "forward") (VCtx 1 1) [VCtx 1 1]) 200.
+Proof. eexists. split; [vm_compute; reflexivity|]. repeat split; vm_compute; reflexivity. Qed.
+
+(* the other identifiers the expansion binds are harmless as argument names, also at the type
+   Context: accepted, and every argument and the request's context arrive where they belong *)
+Definition expansion_names_witness : service :=
+  Service (plain "Relay") [ODerive [2]]
+    [Method (plain "forward")
+       [Arg (plain "context") ty_context; Arg (plain "req") ty_context; Arg (plain "request") ty_context;
+        Arg (plain "resp") ty_context; Arg (plain "msg") ty_context; Arg (plain "service") ty_context]
+       (Some 1) [];
+     Method (plain "other") [Arg (plain "context") ty_context] (Some 1) []].
+
+Lemma expansion_names_harmless :
+  exists g, gen true FallbackErr expansion_names_witness = Ok g
+    /\ rustc_accepts (strip g) = true
+    /\ client_call (strip g) (impl_of expansion_names_witness) (lit "forward") (VCtx 1000 7000)
+         [VCtx 1 1; VCtx 2 2; VCtx 3 3; VCtx 4 4; VCtx 5 5; VCtx 6 6]
+       = ODone (Inv (lit "forward") (VCtx 1000 7000)
+                    [VCtx 1 1; VCtx 2 2; VCtx 3 3; VCtx 4 4; VCtx 5 5; VCtx 6 6]) 200.
+Proof. eexists. split; [vm_compute; reflexivity|]. split; vm_compute; reflexivity. Qed.
